@@ -1,6 +1,7 @@
 package main
 
 import (
+	"strings"
 	"encoding/json"
 	"fmt"
 	"math/rand"
@@ -116,7 +117,9 @@ func (purityStream) Generate(rng *rand.Rand, tier string, emit func(Case)) {
 				e.DeviceNodes = []*specs.DeviceNode{nd}
 			}
 			if rng.Intn(3) == 0 {
-				e.Mounts = []*specs.Mount{{HostPath: "/h", ContainerPath: fmt.Sprintf("/c%d", d), Options: []string{"ro"}}}
+				// (container paths that are legal but not in their clean form: what the Spec says stays what the Spec says)
+				cp := strings.ReplaceAll([]string{"/cN", "/cN/", "/mnt//cN", "/mnt/./cN/data/", "/cN/../cN-up"}[rng.Intn(5)], "N", fmt.Sprint(d))
+				e.Mounts = []*specs.Mount{{HostPath: "/h", ContainerPath: cp, Options: []string{"ro"}}}
 				e.AdditionalGIDs = [][]uint32{{uint32(100 + d)}, {0, uint32(100 + d), 7}, {5, 0, 0, 6}}[rng.Intn(3)]
 			}
 			if rng.Intn(3) == 0 {
